@@ -580,6 +580,44 @@ example : (Store.ofFn .lin 1 1 (fun _ _ => (2 : ℝ))).WF ∧ (Store.ofFn .lin 1
     ∧ (Store.ofFn .lin 1 1 (fun _ _ => (2 : ℝ))).ncols = (#[] : Array ℝ).size + 1 :=
   ⟨(ofFn_holds .lin 1 1 _).1, rfl, rfl⟩
 
+/-- square operands of each class (`pow_spec`, `taylor_spec`, `diagOf_spec`, `isSymmetric_spec`) -/
+example (k : Kind) : (Store.ofFn k 3 3 (fun i j => (i * j : ℝ))).WF ∧
+    (Store.ofFn k 3 3 (fun i j => (i * j : ℝ))).nrows = (Store.ofFn k 3 3 (fun i j => (i * j : ℝ))).ncols := by
+  obtain ⟨w, r, c⟩ := ofFn_dims k (r := 3) (c := 3) (by omega) (by omega) (fun i j => (i * j : ℝ))
+  exact ⟨w, by rw [r, c]⟩
+
+/-- a `2 × 3` / `3 × 2` pair with diagonal, super- and sub-diagonal of sizes 3, 2, 2 (`multDiag_spec`,
+`multTridiag_spec`), operands of different classes -/
+example : ∃ A B : Store ℝ, A.WF ∧ B.WF ∧ A.kind ≠ B.kind ∧ A.ncols = B.nrows ∧ A.ncols = (#[(1 : ℝ), 2, 3]).size ∧
+    A.ncols = (#[(4 : ℝ), 5]).size + 1 := by
+  obtain ⟨wa, _, ca⟩ := ofFn_dims .row (r := 2) (c := 3) (by omega) (by omega) (fun i j => (i + j : ℝ))
+  obtain ⟨wb, rb, _⟩ := ofFn_dims .lin (r := 3) (c := 2) (by omega) (by omega) (fun i j => (i - j : ℝ))
+  exact ⟨_, _, wa, wb, by simp [ofFn_kind], by rw [ca, rb], by rw [ca]; rfl, by rw [ca]; rfl⟩
+
+/-- four operands of the three classes with equal sizes (`multComplex_spec`, `hadamardComplex_spec`) and
+a non-conformable imaginary part (`multComplex_nonconformable_raises`) -/
+example : ∃ A iA B iB iA' : Store ℝ, A.WF ∧ iA.WF ∧ B.WF ∧ iB.WF ∧ A.ncols = B.nrows ∧
+    (iA.nrows = A.nrows ∧ iA.ncols = A.ncols) ∧ (iB.nrows = B.nrows ∧ iB.ncols = B.ncols) ∧
+    ¬ (iA'.nrows = A.nrows ∧ iA'.ncols = A.ncols) := by
+  obtain ⟨w1, r1, c1⟩ := ofFn_dims .row (r := 2) (c := 2) (by omega) (by omega) (fun i j => (i + j : ℝ))
+  obtain ⟨w2, r2, c2⟩ := ofFn_dims .col (r := 2) (c := 2) (by omega) (by omega) (fun i j => (i * j : ℝ))
+  obtain ⟨w3, r3, c3⟩ := ofFn_dims .lin (r := 2) (c := 2) (by omega) (by omega) (fun _ _ => (1 : ℝ))
+  obtain ⟨_, r4, _⟩ := ofFn_dims .row (r := 1) (c := 1) (by omega) (by omega) (fun _ _ => (2 : ℝ))
+  exact ⟨_, _, _, _, _, w1, w2, w3, w2, by rw [c1, r3], ⟨by rw [r2, r1], by rw [c2, c1]⟩, ⟨by rw [r2, r3], by rw [c2, c3]⟩,
+    fun h => by rw [r4, r1] at h; omega⟩
+
+/-- a sample matrix with rows and columns (`covar_spec`, `whichMax_spec`), a pre-sized output for
+`kron_nocheck_spec`, and a list of blocks for `directSumN_spec` -/
+example : ∃ A B O : Store ℝ, A.WF ∧ B.WF ∧ O.WF ∧ 0 < A.nrows ∧ 0 < A.ncols ∧
+    A.nrows * B.nrows ≤ O.nrows ∧ A.ncols * B.ncols ≤ O.ncols ∧ (∀ M ∈ [A, B, O], M.WF) := by
+  obtain ⟨w1, r1, c1⟩ := ofFn_dims .col (r := 2) (c := 3) (by omega) (by omega) (fun i j => (i + j : ℝ))
+  obtain ⟨w2, r2, c2⟩ := ofFn_dims .row (r := 2) (c := 2) (by omega) (by omega) (fun i j => (i * j : ℝ))
+  obtain ⟨w3, r3, c3⟩ := ofFn_dims .lin (r := 4) (c := 6) (by omega) (by omega) (fun _ _ => (7 : ℝ))
+  refine ⟨_, _, _, w1, w2, w3, by rw [r1]; omega, by rw [c1]; omega, by rw [r1, r2, r3], by rw [c1, c2, c3], ?_⟩
+  intro M hM
+  simp only [List.mem_cons, List.mem_nil_iff, or_false] at hM
+  rcases hM with rfl | rfl | rfl <;> assumption
+
 /-! ## the unrepaired routines violate the property (what the `fix:` commits of `findings/C04.json` repair) -/
 
 /-- before the repair `Taylor(A, 0, vO)` wrote `vO[1]` of a one-element vector, for every square `A` -/
